@@ -77,6 +77,9 @@ func MergeSearchResults(lim uint16, firstAttr string, cmpInt bool, sets [][]clie
 					default:
 						cmpAttr = strings.Compare(sets[i][0].Attributes[0], sets[minInd][0].Attributes[0])
 					case object.FilterParentID, object.FilterFirstSplitObject, object.AttributeAssociatedObject:
+						if sets[i][0].Attributes[0] == "" && sets[minInd][0].Attributes[0] == "" {
+							break // absent attribute (NOT_PRESENT primary filter): nothing to compare
+						}
 						if err = curOID.DecodeString(sets[i][0].Attributes[0]); err == nil {
 							err = minOID.DecodeString(sets[minInd][0].Attributes[0])
 						}
